@@ -6,7 +6,7 @@ CONSTANTS
   Chunks = {0, 1, 4, 7, 511, 512, 513}
   MaxK = 3
   MaxFileFields = 2
-  MaxItems = 2
+  MaxItems = 1
   MaxFields = 2
   MaxValues = 2
 INVARIANTS BodyHolds AuthHolds
